@@ -186,8 +186,10 @@ fn run_e1_property(id: &str, thorough: bool, ev: &mut Evidence, t0: Instant) {
     // order: small / dense / deep families first (never capped), bulk families last (capped in the quick tier)
     let mut fams: Vec<families::Family> = vec![families::f1(), families::fsetup(if thorough { 12 } else { 4 }, if thorough { 8 } else { 3 }), seeds, if thorough { families::fplus(families::interior_squares(), 3, "every interior square") } else { families::fplus(vec![42, 21, 35], 3, "traps c3 and f6, d4") }];
     let uncapped = fams.len();
-    fams.push(families::f2());
-    if thorough || !matches!(id, "C05" | "C06" | "C08" | "C10") {
+    // C14 explores path-sensitively (every order of steps separately); the per-turn record does not depend on piece
+    // kinds beyond rabbit / non-rabbit / strength order, so its quick tier uses six kinds for the 2-piece boards
+    fams.push(if id == "C14" && !thorough { families::f2k(&families::KINDS6B, "RCErce") } else { families::f2() });
+    if thorough || !matches!(id, "C05" | "C06" | "C08" | "C10" | "C14") {
         fams.push(families::fd(2, 2, families::all_anchors(2, 2), 3, "all 49 anchors"));
     }
     if thorough {
